@@ -700,6 +700,23 @@ def _calculate_period_costs(network, period):
 		n.state_vars[period].in_transit_holding_cost_incurred = 0
 		n.state_vars[period].revenue_earned = 0
 			
+		# Raw materials holding cost. Includes only products that come from an actual predecessor node, not external supplier.
+		# (Each raw material is counted once, even if it is used by more than one product at the node.)
+		for rm_index in n.raw_materials_by_product(product='all', return_indices=True, network_BOM=True):
+			# Determine suppliers for this raw material, excluding external supplier.
+			preds = n.raw_material_suppliers_by_raw_material(raw_material=rm_index, network_BOM=True)
+			preds = [p for p in preds if p is not None]
+			if len(preds) > 0:
+				# Choose first supplier of this raw material arbitrarily and use its holding cost. This is a workaround
+				# for now, since there cam be multiple RM suppliers but there's no way to specify which supplier's
+				# holding cost to use (or some other holding cost). See https://github.com/LarrySnyder/stockpyl/issues/140.
+				p = preds[0]
+				# Calculate raw material holding cost.
+				n.state_vars[period].holding_cost_incurred += \
+					(p.get_attribute('local_holding_cost', rm_index) or 0) * \
+					(n.state_vars[period].raw_material_inventory[rm_index] \
+						+ n.state_vars[period].inbound_disrupted_items[p.index][rm_index])
+
 		# Loop through products at node.
 		for prod_index in n.product_indices:
 			# Finished goods holding cost.
@@ -709,21 +726,6 @@ def _calculate_period_costs(network, period):
 				n.state_vars[period].holding_cost_incurred += n.get_attribute('local_holding_cost_function', prod_index)(items_held)
 			except TypeError:
 				n.state_vars[period].holding_cost_incurred += (n.get_attribute('local_holding_cost', prod_index) or 0) * items_held
-			# Raw materials holding cost. Includes only products that come from an actual predecessor node, not external supplier.
-			for rm_index in n.raw_materials_by_product(product=prod_index, return_indices=True, network_BOM=True):
-				# Determine suppliers for this raw material, excluding external supplier.
-				preds = n.raw_material_suppliers_by_raw_material(raw_material=rm_index, network_BOM=True)
-				preds = [p for p in preds if p is not None]
-				if len(preds) > 0:
-					# Choose first supplier of this raw material arbitrarily and use its holding cost. This is a workaround
-					# for now, since there cam be multiple RM suppliers but there's no way to specify which supplier's
-					# holding cost to use (or some other holding cost). See https://github.com/LarrySnyder/stockpyl/issues/140.
-					p = preds[0]
-					# Calculate raw material holding cost.
-					n.state_vars[period].holding_cost_incurred += \
-						(p.get_attribute('local_holding_cost', rm_index) or 0) * \
-						(n.state_vars[period].raw_material_inventory[rm_index] \
-							+ n.state_vars[period].inbound_disrupted_items[p.index][rm_index])
 			# Stockout cost.
 			try:
 				n.state_vars[period].stockout_cost_incurred += \
